@@ -106,6 +106,12 @@ class Program:
         self._by_name = {}
         for f in self.functions.values():
             self._by_name.setdefault(f.name, []).append(f)
+        # undo pure renamings of locals/parameters (see sa/alpha.py); the rules name whatshap's variables
+        self.renamed = {}
+        if os.environ.get("VERIF_NO_ALPHA") != "1":
+            from . import alpha
+
+            self.renamed = alpha.normalise(self)
 
     def real(self, rel):
         """Absolute path of a repository file, honouring the overlay."""
